@@ -580,7 +580,7 @@ func genC09(tier string, seed uint64) {
 		runSilent(map[string][][]byte{"ftp": {[]byte("USER anonymous\r\nPASS anonymous\r\nPASV\r\nLIST\r\n")}}, 60*time.Second, 6*time.Second)
 	}
 	for _, svc := range names {
-		for k, in := range c09Inputs(svc, r) {
+		for k, in := range append(c09Inputs(svc, r), c01Inputs(svc, r)...) {
 			cnt := 3
 			if k == 0 || k >= 4 {
 				cnt = n
